@@ -802,16 +802,25 @@ class Exec:
         return self.lookup(n.id, n)
 
     def e_JoinedStr(self, n):
-        parts = []
+        parts, raw, symbolic = [], [], False
         for v in n.values:
             if isinstance(v, ast.Constant):
                 parts.append(str(v.value))
+                raw.append(str(v.value))
             else:
                 try:
                     x = self.expr(v.value)
                 except Unsupported:
                     x = "<?>"
-                parts.append(str(x) if isinstance(x, (str, int, float)) and not isinstance(x, bool) else "<sym>")
+                conc = isinstance(x, (str, int, float)) and not isinstance(x, bool)
+                symbolic |= not conc
+                raw.append(x)
+                parts.append(str(x) if conc else "<sym>")
+        if symbolic and self.opts.get("fstring"):
+            # a string built from symbolic values that the analysed code uses as a KEY (e.g. f"{kind}_{seq}"): the unit supplies an injective representation
+            r = self.opts["fstring"](self, raw)
+            if r is not None:
+                return r
         return "".join(parts)
 
     def e_Tuple(self, n):
@@ -1282,6 +1291,13 @@ class _DictView:
 class _Zip:
     def __init__(self, cols):
         self.cols = cols
+        if cols and all(isinstance(c, Arr) for c in cols):
+            # zip over 1-D arrays of symbolic length: min of the lengths, element k is the tuple of the k-th entries
+            n = cols[0].n
+            for c in cols[1:]:
+                n = z3.If(toz(c.n) < toz(n), c.n, n)
+            self.length = lambda n=n: n
+            self.at = lambda k: tuple(z3.Select(c.a, k) for c in cols)
 
 
 class _Enumerate:
